@@ -265,8 +265,8 @@ def run(ctx):
             ctx.count('not-completed:' + type(res.exc).__name__)
             continue
         check(ctx, text, res, case, sigs)
-        if k == 2 and res.ack:
-            ctx.case(n=0, sample={'map': e['file'], 'family': kinds, 'ack': res.ack[:700]})
+        if res.ack:
+            ctx.sample({'map': e['file'], 'family': kinds, 'ack': res.ack[:700]})
     ctx.case(n=n, sigs=sorted(sigs))
 
 
